@@ -198,7 +198,7 @@ Print Assumptions C13_fill_geometry_den.
 
 (* the FILL loop under two pairs of inline flags runs in lock-step: same outcome
    (same exception or both succeed), same counter, same keys / universes / FILL
-   marks in the same order, and the two tables have exactly the same models *)
+   marks / provenance (idorigin) / material in the same order, and the two tables have exactly the same models *)
 Theorem C13_fill_flags_lockstep : forall fuel fd1 fg1 fd2 fg2 dic counter,
   (forall k, lookup k dic <> None -> k <= counter) ->
   match fill_loop fuel fd1 fg1 dic (fill_keys dic) (dic, counter),
@@ -248,11 +248,11 @@ Example C13_example_options :
   let dic := [(1, mkCell 0 (Some 1) (GNode true [GSurf (-1)])); (2, mkCell 0 None (GNode true [GSurf 1]));
               (10, mkCell 1 None (GNode true [GSurf (-2)])); (11, mkCell 1 None (GNode true [GSurf 2]))] in
   cell_stage 10 (mkOptions false false false []) dic 11 =
-    Ok (dic ++ [(12, mkCell 0 None (GNode true [GRef 1; GRef 10]));
-                (13, mkCell 0 None (GNode true [GRef 1; GRef 11]))], 13) /\
+    Ok (dic ++ [(12, MkCell 0 None (GNode true [GRef 1; GRef 10]) [(10, 1)] 0);
+                (13, MkCell 0 None (GNode true [GRef 1; GRef 11]) [(11, 1)] 0)], 13) /\
   cell_stage 10 (mkOptions true true true [1; 10]) dic 11 =
-    Ok (dic ++ [(12, mkCell 0 None (GNode true [GNode true [GSurf (-1)]; GNode true [GSurf (-2)]]));
-                (13, mkCell 0 None (GNode true [GNode true [GSurf (-1)]; GNode true [GSurf 2]]))], 13).
+    Ok (dic ++ [(12, MkCell 0 None (GNode true [GNode true [GSurf (-1)]; GNode true [GSurf (-2)]]) [(10, 1)] 0);
+                (13, MkCell 0 None (GNode true [GNode true [GSurf (-1)]; GNode true [GSurf 2]]) [(11, 1)] 0)], 13).
 Proof. cbv zeta. split; vm_compute; reflexivity. Qed.
 
 (* a two-level table: cell 1 = -1 AND cell 10, cell 10 = 2 : cell 20, cell 20 = -3;
